@@ -114,6 +114,8 @@ def buildA (hf : HF) (valueSize declared : Nat) (m : List (Bytes × Bytes)) (kvs
   else
     let nb := numBucketsFor declared
     if kvs.any (fun kv => (hf.bucket kv.key nb).isNone) then .error .hang
+    else if kvs.any (fun kv => match hf.bucket kv.key nb with | some i => decide (nb ≤ i) | none => false) then
+      .error .badParams   -- a bucket number outside the table: Go would index out of range; impossible for the real hash (`bucketHash_lt`)
     else
       match allSome ((List.range nb).map fun i => sealBucket hf (bucketKVs hf nb kvs i)) with
       | none => .error .collision
